@@ -227,6 +227,20 @@ def run(ctx, rep, tier):
     i_next = next((i for i, st in enumerate(body) if "self.next" in ast.unparse(st)), None)
     rep.check(i_att is not None and i_next is not None and i_att < i_next, "C01.j", "ForeachNode.convert", "attached before the continuation is joined (so only the body's bytes count)", "foreach ordering changed")
 
+    # ------------------------------------------------------------------ C01.k chained actions come first
+    rep.rule("C01.k", "actions chained at a join (assignments between two statements) run before the following statement's own first-byte actions")
+    rep.check(model.has("DFA.append_after", "culled_transition.attach(*chain_actions, prepend=True)"), "C01.k", "DFA.append_after", "chain actions are prepended to the joined transitions",
+              "actions chained at a join are appended after the next statement's first-byte actions: an assignment written before a match now sees values the match has already changed")
+    rep.check(model.has("DFA.append_after", "if chain_actions and chained_dfa.starting_state in chained_dfa.accepting_states:\n    self.chain_actions_into(chain_actions, sub_states)\n    chain_actions = []"),
+              "C01.k", "DFA.append_after", "if the next statement can match nothing, the actions go onto the transitions entering the join states instead", "empty-match chaining changed")
+    for q in ("OptionalNode.convert", "TryExceptNode.convert", "ForeachNode.convert", "IfElseNode.convert"):
+        f = model.func(q)
+        src = ast.unparse(f)
+        attr = {"OptionalNode.convert": "self.finish_actions"}.get(q, "self.after_actions")
+        pats = (f"append_after(self.next.convert(current_error_handlers), chain_actions={attr})", f"chain_actions_at_end({attr})")
+        rep.check(all(p in src for p in pats), "C01.k", q, "actions following the construct are chained at its end (into the continuation, or at its accepting states)",
+                  f"{q} no longer chains {attr} at its end")
+
     # ------------------------------------------------------------------ C01.g action placement in literal matches
     rep.rule("C01.g", "literal matches: start actions on the first transition (and its mismatch path), per-character actions on every transition, finish actions on the last")
     ma = ast.unparse(model.func("Match.attach"))
